@@ -124,11 +124,11 @@ package main
 //@   hint @h2 {C18} afterBL(names, syscalls) && noDup(names) at after assign names#2
 //@   hint @h2b {C18} afterBL(names, syscalls) && noDup(names) at after assign size#1
 //@   hint @h3 {C18} finalSet(names, syscalls) && noDup(names) at before call sort.Strings#1
-//@   assert @profile {C18} sortedList(names) && noDup(names) && finalSet(names, syscalls) at before call openOutput#1
-// ... and that list, unchanged, is what each output format is given (whatever the debug listing does to `syscalls`)
-//@   ghost let finalNames = names at before call openOutput#1
-//@   assert @config_gets_profile {C18} call.arg1 == finalNames at before call writeProfileConfig#*
-//@   assert @code_gets_profile {C18} call.arg2 == finalNames && call.arg1 == goarch at before call writeGoTemplate#*
+// what each output format is given is the profile: sorted, duplicate free, and its set is (found - blacklisted) + valid
+// allowed names, where `found` is what the listing parser returned (the debug listing may reorder that slice later)
+//@   ghost let found = syscalls at after assign syscalls#1
+//@   assert @profile {C18} sortedList(call.arg1) && noDup(call.arg1) && finalSet(call.arg1, found) at before call writeProfileConfig#*
+//@   assert @profile_code {C18} sortedList(call.arg2) && noDup(call.arg2) && finalSet(call.arg2, found) && call.arg1 == goarch at before call writeGoTemplate#*
 //@   loop 1 binder k1 match range syscalls
 //@     invariant @m nonnil(m) && forallk(n, m, has(m, n) == exists(j, 0, k1, syscalls[j].Num == n))
 //@     invariant @vals forallk(n, m, has(m, n) ==> exists(j, 0, k1, syscalls[j].Num == n && m[n] == syscalls[j]))
